@@ -419,7 +419,7 @@ pub fn run(ctx: &mut Ctx) {
     // (every stretch length up to 600 as well: an operation may advance such a counter more than once - a forced
     // push on a full buffer moves both cursors - so that the stale read sits at some W below 2^8; for 16-bit
     // counters only the listed widths are tried: those are found only if they advance once per operation)
-    let mut widths: Vec<usize> = if ctx.is_fuzz() { vec![255, 256, 257] } else { vec![65535, 65536, 65537, 131072] };
+    let mut widths: Vec<usize> = if ctx.is_fuzz() { vec![] } else { vec![65535, 65536, 65537, 131072] }; // not tape-driven: skipped under the fuzzer
     if !ctx.is_fuzz() {
         widths.extend(1..=600usize);
     }
